@@ -31,6 +31,9 @@ structure ConsDef where
   body : String
   deferrable : Option Bool
   initially : Option String
+  /-- foreign keys: `referent_schema` (the schema of the referred table; `schema` is `source_schema`).
+  `CreateForeignKeyOp.from_constraint` reads both back from `_fk_spec` and always passes both. -/
+  refSchema : Option String := none
   deriving DecidableEq, Repr, Inhabited
 
 /-- `from_constraint(to_constraint(c))`: unique, foreign key and check constraint ops carry
